@@ -157,6 +157,10 @@ def batch_files(max_n, lo, hi, seed):
                 names[pos] = w
                 if run([shape, [(1, 2), (0, 1)], names, [False, True, False, False], 3, [[1, w, w]]]):
                     return res
+        for names in rt.confusable_cases(4):
+            for cards, code in (([(1, 2), (0, 1)], 1), ([(2, 2), (1, 1)], 3)):
+                if run([shape, cards, names, [False, True, False, False], code, [[1, names[0], names[1]], [2, names[1], names[0]]]]):
+                    return res
     return res
 
 
